@@ -30,6 +30,7 @@ func init() {
 			ruleIndexGuardExact(c, "R8")
 			ruleDigitPredicates(c, "R9", "syntax.MatchDigit")
 			ruleRequestPathIsMatched(c, "R10")
+			ruleStrictValidated(c, "R11")
 			ruleIndexResetOnEveryPath(c, "R5c")
 		},
 	})
@@ -131,32 +132,86 @@ func ruleSortAfterInsert(c *Ctx, rule string) {
 	a := c.A
 	c.R.Rule(c.R.Property+"."+rule, 2, "children are kept sorted by kind so that depth-first search realises the priority")
 	prio := priorityFunc(c)
+	// cmpOrder: +1 when fn(x, y) has the sign of priority(x) − priority(y), −1 for the reverse, 0 when undecided.
+	// Accepted bodies: the subtraction, cmp.Compare of the two keys, or a forwarding call of another comparator
+	// (a method expression's thunk, a named comparator) with the two parameters in either order.
+	var cmpOrder func(fn *ssa.Function, depth int) int
+	cmpOrder = func(fn *ssa.Function, depth int) int {
+		if fn == nil || len(fn.Params) != 2 || depth > 3 || len(fn.Blocks) == 0 {
+			return 0
+		}
+		which := func(v ssa.Value) int { // the parameter whose priority v is
+			call, ok := v.(*ssa.Call)
+			if !ok || an.StaticCallee(&call.Call) == nil || an.Origin(an.StaticCallee(&call.Call)) != an.Origin(prio) || len(call.Call.Args) != 1 {
+				return -1
+			}
+			for i, p := range fn.Params {
+				if call.Call.Args[0] == ssa.Value(p) {
+					return i
+				}
+			}
+			return -1
+		}
+		pair := func(x, y ssa.Value) int {
+			switch i, j := which(x), which(y); {
+			case i == 0 && j == 1:
+				return 1
+			case i == 1 && j == 0:
+				return -1
+			}
+			return 0
+		}
+		total := 0
+		for n, r := range an.Returns(fn) {
+			if len(r.Results) != 1 {
+				return 0
+			}
+			o := 0
+			switch v := r.Results[0].(type) {
+			case *ssa.BinOp:
+				if v.Op == token.SUB {
+					o = pair(v.X, v.Y)
+				}
+			case *ssa.Call:
+				args := an.CallArgs(&v.Call)
+				if len(args) != 2 {
+					return 0
+				}
+				if an.CalleeName(&v.Call) == "cmp.Compare" {
+					o = pair(args[0], args[1])
+				} else if g := an.StaticCallee(&v.Call); g != nil && an.InModule(g) {
+					i, j := -1, -1
+					for k, p := range fn.Params {
+						if args[0] == ssa.Value(p) {
+							i = k
+						}
+						if args[1] == ssa.Value(p) {
+							j = k
+						}
+					}
+					switch {
+					case i == 0 && j == 1:
+						o = cmpOrder(an.Origin(g), depth+1)
+					case i == 1 && j == 0:
+						o = -cmpOrder(an.Origin(g), depth+1)
+					}
+				}
+			}
+			if o == 0 || (n > 0 && o != total) {
+				return 0
+			}
+			total = o
+		}
+		return total
+	}
 	goodCmp := func(v ssa.Value) bool {
-		mc, ok := v.(*ssa.MakeClosure)
 		var fn *ssa.Function
-		if ok {
+		if mc, ok := v.(*ssa.MakeClosure); ok {
 			fn = mc.Fn.(*ssa.Function)
 		} else if f, isF := v.(*ssa.Function); isF {
 			fn = f
 		}
-		if fn == nil || len(fn.Params) != 2 {
-			return false
-		}
-		for _, r := range an.Returns(fn) {
-			bo, ok := r.Results[0].(*ssa.BinOp)
-			if !ok || bo.Op != token.SUB {
-				return false
-			}
-			cx, ok1 := bo.X.(*ssa.Call)
-			cy, ok2 := bo.Y.(*ssa.Call)
-			if !ok1 || !ok2 || an.StaticCallee(&cx.Call) != prio || an.StaticCallee(&cy.Call) != prio {
-				return false
-			}
-			if cx.Call.Args[0] != ssa.Value(fn.Params[0]) || cy.Call.Args[0] != ssa.Value(fn.Params[1]) {
-				return false
-			}
-		}
-		return true
+		return cmpOrder(fn, 0) == 1
 	}
 	spec := &PairSpec{
 		Rule: rule,
